@@ -94,3 +94,21 @@ package util
 //@ func PrettifyAppError
 //@ requires nonnil(err)
 //@ ensures nonnil(result)
+
+// ---------------------------------------------------------------------------------------------
+// args.go — which format a generated date / time gets (property C11): a value the user typed is kept as typed
+// (no reformatting); otherwise a configured preference wins (explicit reformat with exactly that preference), and
+// without one the file's own style is applied (auto).
+//@ func (*AtDateAndTimeArgs).TimeFormat
+//@ requires args != nil
+//@ noframe
+//@ ensures implies(nonnil(args.Time), result.mode == 0)
+//@ ensures implies(isnil(args.Time) && config.TimeUse24HourClock.isSet, result.mode == 1 && result.Value.Use24HourClock == config.TimeUse24HourClock.BaseParam.value)
+//@ ensures implies(isnil(args.Time) && !config.TimeUse24HourClock.isSet, result.mode == 2)
+
+//@ func (*AtDateArgs).DateFormat
+//@ requires args != nil
+//@ noframe
+//@ ensures implies(nonnil(args.Date), result.mode == 0)
+//@ ensures implies(isnil(args.Date) && config.DateUseDashes.isSet, result.mode == 1 && result.Value.UseDashes == config.DateUseDashes.BaseParam.value)
+//@ ensures implies(isnil(args.Date) && !config.DateUseDashes.isSet, result.mode == 2)
